@@ -57,7 +57,7 @@ func vhSnapshot(s *Server) string {
 				sb.WriteString("@ttl")
 			}
 			o.Fields().Scan(func(f field.Field) bool {
-				sb.WriteString("," + f.Name() + ":" + f.Value().Data())
+				sb.WriteString("," + f.Name() + ":" + string(rune('0'+int(f.Value().Kind()))) + f.Value().Data())
 				return true
 			})
 			sb.WriteString(";")
@@ -107,6 +107,9 @@ func vhCommandTable() []vhCmd {
 		{[]string{"DELHOOK", "ch1"}, vhWrite, nil},
 		{[]string{"PDELHOOK", "*"}, vhWrite, nil},
 		{[]string{"TIMEOUT", "1", "SET", "fleet", "truck5", "POINT", "1", "2"}, vhWrite, nil},
+		{[]string{"FSET", "fleet", "truck1", "speed", "55", "RETURN", "WITHFIELDS"}, vhWrite, nil},
+		{[]string{"SET", "fleet", "truck6", "FIELD", "speed", "3", "RETURN", "OBJECT", "POINT", "1", "2"}, vhWrite, nil},
+		{[]string{"DEL", "empties", "e1"}, vhWrite, nil},
 		// scripts: the writes they make are logged as the inner commands (C18)
 		{[]string{"EVAL", "return tile38.call('set','fleet','truck9','POINT',1,2)", "0"}, vhWrite,
 			[][]string{{"set", "fleet", "truck9", "POINT", "1", "2"}}},
@@ -156,6 +159,10 @@ func vhGateServer() (*Server, *vhLock) {
 	vhDo(s, "SET", "fleet", "truck2", "STRING", "hello")
 	vhDo(s, "SET", "fleet", "truck4", "EX", "100", "POINT", "3", "4")
 	vhDo(s, "JSET", "user", "u1", "name", "Tom")
+	// a spatial object with an empty geometry (counted, never indexed) alone in its collection
+	vhDo(s, "SET", "empties", "e1", "OBJECT", `{"type":"GeometryCollection","geometries":[]}`)
+	// a string field whose text looks like a number, next to a real number
+	vhDo(s, "FSET", "fleet", "truck2", "code", `"123"`)
 	vhDo(s, "SETCHAN", "ch1", "NEARBY", "fleet", "FENCE", "POINT", "33", "-115", "1000")
 	return s, lk
 }
